@@ -46,7 +46,7 @@ class CppFunc(object):
   def facts(self):
     if self._facts is None:
       f = dict(strings=[], chars=[], calls=[], keys=set(), throws=0,
-               call_args=[], compared=set(), assigns=[])
+               call_args=[], compared=set(), assigns=[], events=[])
       for d in self.decls:
         _walk(d, f, [], in_throw=False)
       self._facts = f
@@ -95,14 +95,30 @@ def _string_of(node):
   return None
 
 
+# namespace-level variables of the translation unit (id -> VarDecl): a
+# reference to one of them from a function body stands for its initialiser, so
+# that moving a literal table out of a function into a named constant is not a
+# difference
+_NSVARS = {}
+
+
 def _walk(n, f, path, in_throw):
   k = n.get('kind')
+  if k == 'DeclRefExpr':
+    rd = n.get('referencedDecl') or {}
+    d = _NSVARS.get(rd.get('id'))
+    if d is not None and rd.get('id') not in path:
+      for c in d.get('inner') or []:
+        if isinstance(c, dict) and c:
+          _walk(c, f, path + [rd.get('id')], in_throw)
+    return
   if k == 'CXXThrowExpr':
     f['throws'] += 1 if 'ParsingException' in json.dumps(n.get('inner', []))[:4000] or True else 0
     in_throw = True
   if k == 'StringLiteral':
     v = _decode_literal(n.get('value', '""'))
     f['strings'].append((v, in_throw, 'CXXForRangeStmt' in path))
+    f['events'].append(('str', v, in_throw))
   elif k == 'CharacterLiteral':
     try:
       f['chars'].append((chr(n.get('value', 0)), in_throw))
@@ -112,6 +128,7 @@ def _walk(n, f, path, in_throw):
     name = _callee_name(n)
     if name:
       f['calls'].append(name)
+      f['events'].append(('call', name, in_throw))
       args = (n.get('inner') or [])[1:]
       strs = [_string_of(a) for a in args]
       f['call_args'].append((name, strs, in_throw))
@@ -162,7 +179,7 @@ class CppModel(object):
       raise AnalysisError('clang++ not available: the C++ parser cannot be analysed')
     cmd = [clang, '-std=c++20', '-fsyntax-only', '-Xclang', '-ast-dump=json',
            '-Xclang', '-ast-dump-filter=logica::parser::', '-DLOGICA_PARSE_LIBRARY', CPP]
-    p = subprocess.run(cmd, cwd=root, capture_output=True, text=True, timeout=300)
+    p = subprocess.run(cmd, cwd=root, capture_output=True, text=True, timeout=1200)
     if p.returncode != 0 or not p.stdout.strip():
       raise AnalysisError('clang could not parse %s: %s' % (CPP, p.stderr[-400:]))
     self.decls = []
@@ -179,6 +196,7 @@ class CppModel(object):
       self.decls.append(obj)
     self.funcs = {}
     self.vars = {}
+    _NSVARS.clear()
     for d in self.decls:
       self._index(d, '')
     if len(self.funcs) < 60:
@@ -200,6 +218,9 @@ class CppModel(object):
           self._index(c, d.get('name', '?') + '::')
     elif k == 'VarDecl':
       self.vars[d.get('name')] = d
+      qt = (d.get('type') or {}).get('qualType', '')
+      if prefix == '' and (d.get('constexpr') or qt.startswith('const ') or ' const' in qt):
+        _NSVARS[d.get('id')] = d      # constants only: a mutable global is state, not a table
 
   def func(self, name):
     if name not in self.funcs:
@@ -210,11 +231,24 @@ class CppModel(object):
     """String / char literals in the initialiser of a namespace-level var."""
     d = self.vars.get(name)
     if d is None:
-      raise AnalysisError('anchor missing: C++ variable %s' % name)
+      return None
     f = dict(strings=[], chars=[], calls=[], keys=set(), throws=0,
-             call_args=[], compared=set(), assigns=[])
+             call_args=[], compared=set(), assigns=[], events=[])
     _walk(d, f, [], False)
     return f
+
+  def ordered_strings(self, name, helpers=(), _seen=None):
+    """non-diagnostic string literals of a function in source order, with the
+    strings of helper functions inserted where they are called."""
+    seen = set(_seen or ()) | {name}
+    out = []
+    for kind, v, thr in self.func(name).facts()['events']:
+      if kind == 'str':
+        if not thr:
+          out.append(v)
+      elif v in helpers and v in self.funcs and v not in seen:
+        out += self.ordered_strings(v, helpers, seen)
+    return out
 
   def writers_of(self, varname):
     """Functions that assign the namespace-level variable."""
